@@ -790,7 +790,7 @@ fn run_batch(ctx: &Ctx, tier: Tier, corpus: &Corpus, emit_log: Option<&Path>) ->
     let n = match (property, tier) {
         ("C29", Tier::Quick) => 1500,
         ("C29", Tier::Thorough) => 40_000,
-        (_, Tier::Quick) => 1000,
+        (_, Tier::Quick) => 3000,
         (_, Tier::Thorough) => 30_000,
     };
     let n = ((n as f64) * scale()) as usize;
